@@ -47,6 +47,8 @@ def parseOp (pw : Pid → List Wid) (j : Json) : Except String (List Op) := do
   | "next_idle" => return [.nextIdle p (← getNats j "ws") (← Driver.getBool j "acq")]
   | "release" => return [.releaseOne p (← Driver.getNat j "w") (← Driver.getBool j "checked")]
   | "finalize" => return [.finalize p]
+  | "idle" => return [.idleWorkers p]
+  | "call" => return [.callW p (← Driver.getNat j "w")]
   | "run" => return runScript pw p (← Driver.getNat j "tries")
   | "call_and_wait" => return callAndWaitScript pw p
   | "as_completed" => return asCompletedScript p (← (← Driver.getArr j "body").toList.mapM parseBody)
@@ -162,7 +164,8 @@ def pcName : MPc → String
   | .aExit _ => "aExit" | .rEnter => "rEnter" | .rRdLocked1 => "rRdLocked1" | .rRdPool => "rRdPool"
   | .rRdLocked2 => "rRdLocked2" | .rUnlock => "rUnlock" | .rWr => "rWr" | .rExit => "rExit"
   | .vRdLocked => "vRdLocked" | .vRdPool => "vRdPool" | .lRdLocked => "lRdLocked" | .lRdPool => "lRdPool"
-  | .uRd => "uRd"
+  | .cEnter => "cEnter" | .cExit => "cExit" | .iEnter => "iEnter" | .iExit => "iExit"
+  | .kEnter => "kEnter" | .kExit => "kExit"
 
 /-- label of the step thread `t` is about to take (for trace comparison with the real scheduler) -/
 def label (c : Cfg) (t : Tid) : String :=
